@@ -1,12 +1,96 @@
-(** C11 — placeholder while the pipeline is brought up. *)
-From Dawn Require Import Mvs.Edit.
+(** C11 — Requirement edits keep the requirement graph consistent.
 
-Theorem cfg_set_get : forall c n v, cfg_get (cfg_set c n v) n = Some v.
-Proof.
-  induction c as [|[k w] c IH]; intros; simpl.
-  - now rewrite str_eqb_refl.
-  - destruct (str_eqb k n) eqn:E; simpl.
-    + now rewrite E.
-    + destruct (str_ltb k n); simpl; [rewrite E; apply IH | now rewrite str_eqb_refl].
-Qed.
-Print Assumptions cfg_set_get.
+    Vocabulary (Mvs/Edit.v, Mvs/Spec.v):
+      [apply_op pick U root o]    the model of Get / Tidy / UpgradeAll of internal/mvs/get.go applied to the root
+                                  configuration [root] (name -> (path, version)) over the universe [U];
+      [dawn_build_list ...]       dawn's BuildList (Props_C10: the MVS solution of the reachable graph);
+      [op_versions ...]           the requirement list the operation computes before names are attached;
+      [no_lower bl0 bl1]          every project of bl0 is in bl1 at the same or a higher version;
+      [wf_universe], [wf_reqs]    every requirement names a non-empty path at a canonical semantic version
+                                  (what project.LoadConfigBytes enforces);
+      [names_unique root]         requirement names are unique (a Go map);
+      [paths_unique root]         HYPOTHESIS "no two requirement names share a path" (needed where get returns
+                                  the root's requirement list unchanged; see the report);
+      [u_fuel], [e_fuel]          explicit sufficient fuels (number of nodes + constant).  *)
+From Dawn Require Import Mvs.Spec Mvs.Proofs_Names Mvs.Proofs_C11.
+
+(** Tidy returns requirements whose build list equals the original one (and both exist) *)
+Theorem tidy_preserves_build_list :
+  forall pick U root c',
+    wf_universe U -> wf_reqs (map snd root) -> names_unique root ->
+    apply_op pick U root OpTidy = Ok c' ->
+    forall pick1 fuel1 pick2 fuel2,
+      (u_fuel U (map snd c') <= fuel1)%nat -> (u_fuel U (map snd root) <= fuel2)%nat ->
+      exists bl, dawn_build_list pick2 fuel2 U root = Ok bl /\ dawn_build_list pick1 fuel1 U c' = Ok bl.
+Proof. exact Proofs_C11.tidy_preserves_build_list. Qed.
+Print Assumptions tidy_preserves_build_list.
+
+(** Get of a version that is not below the selected one (add / already there / upgrade, every query class: the
+    theorem is about whatever version the query resolved to): the new build list contains the project at the
+    resolved version or above, and lowers no project *)
+Theorem upgrade_contains_and_no_lower :
+  forall pick U root q k c',
+    wf_universe U -> wf_reqs (map snd root) -> names_unique root -> paths_unique root ->
+    apply_op pick U root (OpGet q k) = Ok c' ->
+    exists bl0 version,
+      build_list pick (e_fuel U (map snd root)) U (map snd root) = Ok bl0 /\
+      resolve_query U bl0 q k = Ok version /\
+      (wf_node version ->
+       (forall cur, find_path (fst version) bl0 = Some cur -> sem_cmp cur (snd version) <> Gt) ->
+       forall pick1 fuel1 bl1,
+         (u_fuel U (map snd c') <= fuel1)%nat -> dawn_build_list pick1 fuel1 U c' = Ok bl1 ->
+         no_lower bl0 bl1 /\ exists w, In (fst version, w) bl1 /\ vle (snd version) w = true).
+Proof. exact Proofs_C11.get_upgrade_contains_and_no_lower. Qed.
+Print Assumptions upgrade_contains_and_no_lower.
+
+(** ... and in the upgrade case proper the new requirements do resolve, to the list mvs.Upgrade computed *)
+Theorem upgrade_resolves :
+  forall pick U rr version newv,
+    wf_universe U -> wf_reqs rr -> wf_node version ->
+    bind (mvs_upgrade (u_required U rr) pick (e_fuel U rr) version)
+         (req_list (u_required U (set_first_path rr version)) target (e_fuel U rr)) = Ok newv ->
+    exists bl0 bl,
+      build_list pick (e_fuel U rr) U rr = Ok bl0 /\
+      StronglySorted path_lt newv /\ wf_reqs newv /\
+      (forall pick' fuel', (u_fuel U newv <= fuel')%nat -> build_list pick' fuel' U newv = Ok bl) /\
+      no_lower bl0 bl /\ (exists w, In (fst version, w) bl /\ vle (snd version) w = true).
+Proof. exact Proofs_C11.get_upgrade_versions_sound. Qed.
+Print Assumptions upgrade_resolves.
+
+(** UpgradeAll: the new build list exists, lowers no project, and contains every project at (or above) the
+    version Reqs.Upgrade resolves for it *)
+Theorem upgrade_all_no_lower :
+  forall pick U root c',
+    wf_universe U -> wf_reqs (map snd root) -> names_unique root ->
+    apply_op pick U root OpUpgradeAll = Ok c' ->
+    forall pick1 fuel1 pick2 fuel2,
+      (u_fuel U (map snd c') <= fuel1)%nat -> (u_fuel U (map snd root) <= fuel2)%nat ->
+      exists bl0 bl, dawn_build_list pick2 fuel2 U root = Ok bl0 /\ dawn_build_list pick1 fuel1 U c' = Ok bl /\
+                     no_lower bl0 bl /\
+                     (forall p v w, In (p, v) bl0 -> p <> [] -> reqs_upgrade U (p, v) = Some (p, w) ->
+                                    exists w', In (p, w') bl /\ vle w w' = true).
+Proof. exact Proofs_C11.upgrade_all_no_lower. Qed.
+Print Assumptions upgrade_all_no_lower.
+
+(** Algorithm R behind all three: the minimal requirement list of a build list regenerates it *)
+Theorem tidy_versions_sound :
+  forall pick U rr newv,
+    wf_universe U -> wf_reqs rr -> tidy_versions pick U rr = Ok newv ->
+    exists bl, build_list pick (e_fuel U rr) U rr = Ok bl /\
+               StronglySorted path_lt newv /\ incl newv bl /\ wf_reqs newv /\
+               forall pick' fuel', (u_fuel U newv <= fuel')%nat -> build_list pick' fuel' U newv = Ok bl.
+Proof. exact Proofs_C11.tidy_versions_sound. Qed.
+Print Assumptions tidy_versions_sound.
+
+(** names: for every operation whose computed requirement list has one entry per (non-empty) path *)
+Theorem names_preserved_new_names_unique :
+  forall pick U root o c' newv,
+    names_unique root -> apply_op pick U root o = Ok c' -> op_versions pick U o (map snd root) = Ok newv ->
+    NoDup (map fst newv) -> (forall x, In x newv -> fst x <> []) ->
+    same_set (map snd c') newv /\
+    NoDup (map fst c') /\
+    (forall n p v0 v, In (n, (p, v0)) root -> In (p, v) newv -> cfg_get c' n = Some (p, v)) /\
+    (forall x, In x newv -> names_of root (fst x) = [] ->
+               exists n, cfg_get c' n = Some x /\ cfg_get (keep_old root newv) n = None).
+Proof. exact Proofs_C11.names_spec. Qed.
+Print Assumptions names_preserved_new_names_unique.
